@@ -1,6 +1,7 @@
 package main
 
 import (
+	"encoding/json"
 	"flag"
 	"fmt"
 	"go/token"
@@ -72,6 +73,10 @@ func loadProgram(dir string) (*Verifier, error) {
 		return nil, err
 	}
 	if err := v.cs.CheckDuplicates(); err != nil {
+		return nil, err
+	}
+	v.tableRaw = map[string]json.RawMessage{}
+	if err := v.extractTables(dir); err != nil {
 		return nil, err
 	}
 	return v, nil
